@@ -472,7 +472,7 @@ func Run(c *vl.Ctx) {
 	} else {
 		c.SetBudget(time.Since(c.Start) + 18*time.Minute)
 	}
-	t := &tally{graphsDone: map[int]int{}, reported: map[string]bool{}}
+	t := &tally{incomplete: []string{}, graphsDone: map[int]int{}, reported: map[string]bool{}}
 
 	// (ii) first: cheap, both tiers
 	t0 := time.Now()
